@@ -818,7 +818,11 @@ func (h *harness) runAll(big int) {
 			fetched = nil
 		}
 		lastTile := dataTilesOf(n)[len(dataTilesOf(n))-1]
-		for _, tc := range append(h.hashTamperings(th, fetched), h.consistentForgery(th)...) {
+		forgeries := h.consistentForgery(th)
+		for i := 0; i < 2 && n >= 600; i++ {
+			forgeries = append(forgeries, h.consistentForgery(th)...)
+		}
+		for _, tc := range append(h.hashTamperings(th, fetched), forgeries...) {
 			h.stats["tamper_class_"+strings.SplitN(strings.SplitN(tc.label, "@", 2)[0], ":", 2)[0]]++
 			forgery := strings.HasPrefix(tc.label, "consistent")
 			s0 := int64(0)
